@@ -364,11 +364,13 @@ func (H) Execute(x *common.Exec, s any) {
 	_ = cur
 	mk := func(kind string) func(target.Update) {
 		return func(u target.Update) {
+			simrt.Yield("handler") // a real handler does work (manager.Add takes locks): a scheduling point
 			id := simrt.Current().ID
 			calls[id] = append(calls[id], call{stamp: simrt.Stamp(), kind: kind, name: u.Name, tgt: canon(u.Target), req: canon(u.Request)})
 		}
 	}
 	h := target.Handler{Add: mk("add"), Update: mk("update"), Delete: func(n string) {
+		simrt.Yield("handler")
 		id := simrt.Current().ID
 		calls[id] = append(calls[id], call{stamp: simrt.Stamp(), kind: "delete", name: n})
 	}}
